@@ -325,6 +325,16 @@ func (in *interpreter) runPath(fn *ssa.Function, prefix []int64) (res *PathResul
 		case runtime.Error:
 			if _, mine := p.(runtimeError); mine || !strings.Contains(p.Error(), "interface conversion") {
 				res.Kind, res.Site, res.Msg = "panic", "panic", "uncaught runtime panic: "+p.Error()
+				if !mine && strings.Contains(p.Error(), "gosym.") {
+					// a host-level error on the engine's own value types is an engine limitation, not a
+					// panic of the code under test
+					res.Kind, res.Site = "inconclusive", ""
+					res.Msg = "engine limitation: " + p.Error()
+					if in.lastFn != nil {
+						res.Msg += " (last entered: " + in.lastFn.String() + ")"
+					}
+					break
+				}
 				in.fillModel(res)
 			} else {
 				res.Kind, res.Msg = "inconclusive", "interp: "+p.Error()
